@@ -6,6 +6,7 @@ import (
 	"fmt"
 	"os"
 	"path/filepath"
+	"runtime/debug"
 	"strings"
 	"syscall"
 	"testing"
@@ -40,9 +41,15 @@ type c04prog struct {
 	KillAt  []int     `json:"kill_at"` // per process: kill when it has made this many yields (0 = never)
 	// Sat: Names[0] starts Base below 2^64-1, so that the first increments
 	// saturate it (values never wrap, not even for an instant)
-	Sat        bool   `json:"sat,omitempty"`
-	NoWeekends bool   `json:"no_weekends,omitempty"`
-	Base       uint64 `json:"base,omitempty"`
+	Sat        bool `json:"sat,omitempty"`
+	NoWeekends bool `json:"no_weekends,omitempty"`
+	// Foreign: the last Foreign processes are a different program whose counter
+	// file name coincides (same base name, version, toolchain, day) but whose
+	// metadata, and with it the header length, differs. Whether such a process
+	// gets to record is not judged (the library refuses it); what it does to the
+	// file and to the other processes is.
+	Foreign int    `json:"foreign,omitempty"`
+	Base    uint64 `json:"base,omitempty"`
 }
 
 type c04proc struct {
@@ -53,6 +60,8 @@ type c04proc struct {
 	done  map[int]uint64
 	ops   int
 	err   string
+	// foreign: another program that happens to use the same file name
+	foreign bool
 }
 
 type c04env struct {
@@ -272,8 +281,16 @@ func c04Program(r *verifrt.Rand, kind int) c04prog {
 		p.Name = "mixed"
 		p.Names = append(vfCollidingNames(r, 2, 0), "plain/x", "big/"+strings.Repeat("M", 4000))
 		p.PreFill = r.Intn(4)
+		if (kind/8)%2 == 0 {
+			p.Name = "other-program"
+			p.PreFill = 0
+			p.Foreign = 1
+		}
 	}
-	p.PreOpen = p.Name != "concurrent-create"
+	p.PreOpen = p.Name != "concurrent-create" && (p.Foreign == 0 || r.Bool())
+	if p.Foreign > 0 && np == 2 {
+		np = 3
+	}
 	for i := 0; i < np; i++ {
 		var ops []c04op
 		if !p.PreOpen {
@@ -315,20 +332,35 @@ func runC04(res *verifrt.Result, base string, p c04prog, st c03strategy, rnd *ve
 	CounterTime = func() time.Time { return now }
 	munmap = func(d *mmap.Data) error { return e.q.Unmap(d.Data, "unmap") }
 	vfTrapExit()
-	for range p.Procs {
-		e.procs = append(e.procs, &c04proc{f: &file{}, ctrs: map[int]*Counter{}, begun: map[int]uint64{}, done: map[int]uint64{}})
+	var ownBI *debug.BuildInfo
+	for pi := range p.Procs {
+		pr := &c04proc{f: &file{}, ctrs: map[int]*Counter{}, begun: map[int]uint64{}, done: map[int]uint64{}}
+		if p.Foreign > 0 {
+			bi := func(path, mod string) *debug.BuildInfo {
+				return &debug.BuildInfo{GoVersion: "go1.23.5", Path: path, Main: debug.Module{Path: mod, Version: "(devel)"}}
+			}
+			ownBI = bi("example.com/a/cmd/server", "example.com/a")
+			pr.f.buildInfo = ownBI
+			if pi >= len(p.Procs)-p.Foreign {
+				pr.f.buildInfo = bi("example.org/platform-team/infrastructure/tooling/v2/cmd/server", "example.org/platform-team/infrastructure/tooling/v2")
+				pr.foreign = true
+			}
+		}
+		e.procs = append(e.procs, pr)
 	}
 	if p.PreOpen {
 		for _, pr := range e.procs {
 			pr.f.rotate1()
-			if pr.f.err != nil {
+			if pr.f.err != nil && pr.foreign {
+				res.Hit("other-program-refused-at-pre-open")
+			} else if pr.f.err != nil {
 				res.Inconc("pre-open failed: " + pr.f.err.Error())
 			}
 		}
 		if m := e.procs[0].f.current.Load(); m != nil {
 			e.path = m.f.Name()
 		}
-		filler := &file{}
+		filler := &file{buildInfo: ownBI}
 		filler.rotate1()
 		for i := 0; i < p.PreFill; i++ {
 			c := &Counter{name: fmt.Sprintf("fill/%d/", i) + strings.Repeat("f", 3900), file: filler}
@@ -662,6 +694,15 @@ func TestVerifC04(t *testing.T) {
 					if s.Threads[pi].Killed {
 						continue
 					}
+					if p.Foreign > 0 && pr.f.err != nil && strings.Contains(pr.f.err.Error(), "header mismatch") {
+						// refused because the file belongs to the other program (whichever of the
+						// two created it): not judged, see c04prog.Foreign. A process refused a
+						// file that carries its own program's header is judged like any other.
+						if cf, err := verifref.ParseCounterFile(e.mon); err == nil && cf.MetaKV["Program"] != pr.f.buildInfo.Path {
+							r.Hit("other-program-refused")
+							continue
+						}
+					}
 					if pr.err != "" {
 						c04Violate(r, "survivor-failed", fmt.Sprintf("surviving process P%d was made to fail: %s (program %s)", pi, pr.err, p.Name), replay)
 					}
@@ -679,7 +720,7 @@ func TestVerifC04(t *testing.T) {
 			e.close()
 		}
 	})
-	res.Require("creator-killed-pattern", "saturating-base-written", "program:saturating", "remap-twice-pattern", "program:colliding-big", "program:same-name", "program:colliding-names", "program:extend-race", "program:page-tail", "program:concurrent-create", "schedule-with-kill", "strategy:pct", "strategy:park")
+	res.Require("creator-killed-pattern", "saturating-base-written", "program:saturating", "remap-twice-pattern", "program:colliding-big", "program:same-name", "program:colliding-names", "program:extend-race", "program:page-tail", "program:concurrent-create", "program:other-program", "other-program-refused", "schedule-with-kill", "strategy:pct", "strategy:park")
 	if err := res.Write(); err != nil {
 		t.Fatal(err)
 	}
